@@ -18,6 +18,7 @@ Results are left in `MON` (fails, stats); the caller drains them per case.
 """
 from __future__ import annotations
 
+import contextlib
 import math
 from collections import Counter
 from typing import Any, Callable, Dict, List, Optional, Tuple
@@ -68,6 +69,9 @@ class Monitor:
         self.budget_fn: Optional[Callable[[int, float], int]] = None
         self.last_top: Optional[Invocation] = None
         self.tops: List[Tuple[int, int, int]] = []      # (glyphs, steps, budget) of the outermost invocations
+        self.budget_phase: Optional[str] = None          # which allowance was exhausted (None: the overall budget)
+        self.budget_phase_key = "analyze"
+        self.phase_pct: Dict[str, float] = {}            # largest share of a phase allowance used since drain()
 
     # ------------------------------------------------------------------
     def install(self) -> None:
@@ -83,7 +87,69 @@ class Monitor:
 
         analyze.__wrapped__ = self.orig  # type: ignore[attr-defined]
         layout.LTLayoutContainer.analyze = analyze  # type: ignore[method-assign]
+
+        # phase budgets: the two linear/quadratic phases get their own, much smaller, share of the step budget
+        # (a function of the number of glyphs / lines and of the page grid only), so that a runaway inside them is
+        # stopped after seconds even on a page whose overall n^2 budget is worth an hour
+        orig_go = layout.LTLayoutContainer.group_objects
+        orig_gl = layout.LTLayoutContainer.group_textlines
+
+        def group_objects(container: Any, laparams: Any, objs: Any):  # noqa: ANN202
+            objs = list(objs)
+            yield from mon._phase("group_objects", 100000 + 6000 * len(objs), orig_go(container, laparams, objs))
+
+        def group_textlines(container: Any, laparams: Any, lines: Any):  # noqa: ANN202
+            lines = list(lines)
+            (x0, y0, x1, y1) = container.bbox
+            cells = (abs(x1 - x0) / 50.0 + 2) * (abs(y1 - y0) / 50.0 + 2)
+            m = len(lines) + 2
+            yield from mon._phase("group_textlines", int(100000 + 4000 * m * (cells + m)), orig_gl(container, laparams, lines))
+
+        orig_gb = layout.LTLayoutContainer.group_textboxes
+
+        def group_textboxes(container: Any, laparams: Any, boxes: Any):  # noqa: ANN202
+            # measured on the intact tree: steps <= 5.1 b^2 (b + cells) for b boxes (1300 runs incl. the stress pages)
+            (x0, y0, x1, y1) = container.bbox
+            cells = (abs(x1 - x0) / 50.0 + 2) * (abs(y1 - y0) / 50.0 + 2)
+            b = len(boxes) + 2
+
+            with mon._allow("group_textboxes", int(100000 + 150 * b * b * (b + cells))):
+                return orig_gb(container, laparams, boxes)
+
+        layout.LTLayoutContainer.group_textboxes = group_textboxes  # type: ignore[method-assign]
+        layout.LTLayoutContainer.group_objects = group_objects  # type: ignore[method-assign]
+        layout.LTLayoutContainer.group_textlines = group_textlines  # type: ignore[method-assign]
         self.installed = True
+
+    @contextlib.contextmanager
+    def _allow(self, name: str, allowance: int):  # noqa: ANN202
+        """Lower the global step budget to now + allowance for the duration of the block."""
+        from vf.common import STEPS
+
+        if not STEPS.active:
+            yield
+            return
+        old = STEPS.budget
+        start = STEPS.count
+        limit = start + allowance
+        if limit < old:
+            STEPS.budget = limit
+        try:
+            yield
+        except StepBudgetExceeded:
+            if limit < old and STEPS.count > limit and self.budget_phase is None:
+                self.budget_phase = "%s (phase allowance %d steps)" % (name, allowance)
+                self.budget_phase_key = name
+            raise
+        finally:
+            STEPS.budget = old
+            used = STEPS.count - start
+            self.phase_pct[name] = max(self.phase_pct.get(name, 0.0), 100.0 * used / allowance)
+
+    def _phase(self, name: str, allowance: int, gen: Any):  # noqa: ANN202
+        """Consume generator `gen` under the phase allowance."""
+        with self._allow(name, allowance):
+            yield from gen
 
     def drain(self) -> Tuple[List[Fail], Counter]:
         f, s = self.fails, self.stats
@@ -91,6 +157,9 @@ class Monitor:
         self.pending = []
         self.stack = []
         self.tops = []
+        self.budget_phase = None
+        self.budget_phase_key = "analyze"
+        self.phase_pct = {}
         return f, s
 
     # ------------------------------------------------------------------
